@@ -255,6 +255,7 @@ func (m MethodStatistics) updateWith(t time.Duration) MethodStatistics {
 
 func (o *objectImpl) EnableStats(enabled bool) error {
 	o.statsEnabled = enabled
+	vhook.Emit("object", o, "mode", "stats", o.statsEnabled, "trace", o.traceEnabled)
 	return nil
 }
 
@@ -276,6 +277,7 @@ func (o *objectImpl) ClearStats() error {
 		var m MethodStatistics
 		o.stats[uid] = m
 	}
+	vhook.Emit("object", o, "clear")
 	return nil
 }
 
@@ -285,6 +287,7 @@ func (o *objectImpl) IsTraceEnabled() (bool, error) {
 
 func (o *objectImpl) EnableTrace(enable bool) error {
 	o.traceEnabled = enable
+	vhook.Emit("object", o, "mode", "stats", o.statsEnabled, "trace", o.traceEnabled)
 	return nil
 }
 
@@ -322,6 +325,7 @@ func (o *objectImpl) Trace(msg *net.Message, id uint32) {
 
 	// do not trace traceObject signal
 	if msg.Header.Action == 0x56 {
+		vhook.Emit("object", o, "trace_skip", "kind", int(msg.Header.Type))
 		return
 	}
 
@@ -338,6 +342,7 @@ func (o *objectImpl) Trace(msg *net.Message, id uint32) {
 		Arguments: arguments,
 		Timestamp: timeval,
 	}
+	vhook.Emit("object", o, "trace", "id", event.Id, "kind", int(event.Kind), "slot", event.SlotId)
 	err := o.signal.SignalTraceObject(event)
 	if err != nil {
 		log.Printf("trace error: %s", err)
@@ -351,6 +356,7 @@ func (o *objectImpl) updateMethodStatistics(uid uint32, d time.Duration) {
 	if ok {
 		o.stats[uid] = stat.updateWith(d)
 	}
+	vhook.Emit("object", o, "stat", "act", uid, "ok", ok, "count", o.stats[uid].Count)
 }
 
 func (o *objectImpl) Tracer(msg *net.Message, from Channel) Channel {
@@ -360,11 +366,13 @@ func (o *objectImpl) Tracer(msg *net.Message, from Channel) Channel {
 	}
 
 	if !o.traceEnabled {
+		vhook.Emit("object", o, "tracer", "act", msg.Header.Action, "mid", msg.Header.ID, "ep", vhook.ID(from.EndPoint()), "stats", o.statsEnabled, "trace", false, "next", o.nextTrace, "sh", vhook.ID(o.signalHandler))
 		return from
 	}
 
 	traceID := o.nextTrace
 	o.nextTrace++
+	vhook.Emit("object", o, "tracer", "act", msg.Header.Action, "mid", msg.Header.ID, "ep", vhook.ID(from.EndPoint()), "stats", o.statsEnabled, "trace", true, "next", o.nextTrace, "sh", vhook.ID(o.signalHandler))
 	o.Trace(msg, traceID)
 
 	return &tracedChannel{from, o, traceID}
